@@ -359,3 +359,42 @@ def deep_parse_inputs(mm: MetaModel, d: Decl) -> List[Any]:
             v[p["name"]] = payload
             out.append(v)
     return out
+
+
+def subclass_probe(live, mm: MetaModel, decls) -> List[Dict[str, Any]]:
+    """A user subclass of a generated class (here: an empty subclass with the SAME name, the harder case for name-keyed tables) must be
+    structured into an instance of the subclass and serialise exactly like the generated class.  Returns problems
+    {'class', 'kind': 'type' | 'serialisation' | 'raises', 'detail', 'input'}."""
+    from oracle.native import json_diff
+
+    conv = live.converter
+    out: List[Dict[str, Any]] = []
+    for d in decls:
+        cls = getattr(live.types, d.pyname, None)
+        if cls is None:
+            continue
+        try:
+            sub = type(cls.__name__, (cls,), {})
+        except TypeError:
+            continue
+        t = decl_type(d)
+        for mx in (False, True):
+            try:
+                j = mm.witness(t, mx)
+                base = conv.unstructure(conv.structure(j, cls))
+            except Exception:  # noqa
+                continue
+            try:
+                obj = conv.structure(j, sub)
+                got = conv.unstructure(obj)
+            except Exception as e:  # noqa
+                out.append({"class": d.pyname, "kind": "raises", "detail": f"{type(e).__name__}: {str(e)[:120]}", "input": j})
+                break
+            if type(obj) is not sub:
+                out.append({"class": d.pyname, "kind": "type", "detail": f"structure(j, <subclass of {d.pyname}>) returns a {type(obj).__module__}.{type(obj).__qualname__} that is not an instance of the requested subclass", "input": j})
+                break
+            diff = json_diff(base, got)
+            if diff:
+                out.append({"class": d.pyname, "kind": "serialisation", "detail": f"an instance of a subclass of {d.pyname} serialises differently from {d.pyname}: {diff}", "input": j})
+                break
+    return out
